@@ -362,33 +362,61 @@ def run(ctx):
     def shares(x, y):
         return x.size > 0 and y.size > 0 and np.may_share_memory(x, y) and np.shares_memory(x, y)
 
+    class Cur:
+        """exact current state of one object along a history (setters / in-place edits applied)"""
+
+        def __init__(self, inst):
+            self.form, self.n, self.m, self.beta, self.sparse, self.scale = inst.form, inst.n, inst.m, inst.beta, inst.sparse, inst.scale
+            if inst.form == "prod":
+                self.R = [list(r) for r in inst.R]
+                self.Q = [[list(q) for q in qs] for qs in inst.Q]
+            else:
+                # stored order = lexicographic order (pairs are distinct)
+                self.pairs = sorted(inst.pairs, key=lambda p_: (p_[0], p_[1]))
+
+        def as_inst(self):
+            if self.form == "prod":
+                i_ = Inst("prod", self.n, self.beta, m=self.m, R=[list(r) for r in self.R], Q=[[list(q) for q in qs] for qs in self.Q])
+            else:
+                i_ = Inst("sa", self.n, self.beta, pairs=list(self.pairs), sparse=self.sparse)
+            i_.scale = self.scale
+            return i_
+
+        def table(self):
+            return self.as_inst().table()
+
     def run_history(inst, table, acts, base, nt):
-        """A random sequence of calls on one fresh DiscreteDP. Kept: every returned array, every input
-        array, the object's stored arrays. After every call: all earlier results are bitwise what they
-        were, no returned array shares memory with an earlier result / an input / the object's arrays,
-        inputs and the object are bitwise unchanged. Each result is also checked against the exact
-        definition when it is produced, and (bellman / greedy / T_sigma) compared with the pure model
-        *as it stands at the end of the history*."""
+        """A random sequence of operations on one fresh DiscreteDP: queries (all public entry points)
+        interleaved with attribute reassignment (`ddp.beta = …`) and in-place edits of `ddp.R`, `ddp.Q`.
+        Kept: every returned array (bits at return time), every input array, the object's stored arrays.
+        After every operation: all earlier results are bitwise what they were, no returned array shares
+        memory with an earlier result / an input / the object's arrays, inputs are bitwise unchanged, the
+        object's arrays are bitwise what the last deliberate edit left. Each result is checked against
+        the exact definition *in the current state* when it is produced, and compared with the pure
+        model as it stands at the end of the history (per call, and the bellman / T_sigma calls once
+        more through the model's own history semantics `run`, op `hist`)."""
         dh = construct(inst)
         n = inst.n
+        cur = Cur(inst)
+        st = {"line": cur.as_inst().line(), "tab": cur.table()}
+        line0 = st["line"]
         obj_arrs = arrays_of(dh)
-        obj_snap = snap(obj_arrs)
+        objs = {"snap": snap(obj_arrs), "beta": float(dh.beta)}
         ledger = []     # dicts: label, arrs, snaps, line (model request) + show (canonical string at the end)
         inputs = []     # (label, array, snapshot)
         calls = []      # textual record for the replay
-        exact_pool = []  # (exact vector, nesting depth, ndarray or None) usable as v
+        hops = []       # (op token for the model's `run`, show() or None)
+        exact_pool = []  # (exact vector, nesting depth, ndarray) usable as v
 
         def fresh_v():
             if inst.scale != 1:
-                v = gen_v(inst)
-                return v, 0
+                return gen_v(inst), 0
             kind = rng.choice(["small", "small", "large", "mixed", "neg"])
-            v = gen_v(inst, kind)
-            return v, (0 if kind == "small" else 99)
+            return gen_v(inst, kind), (0 if kind == "small" else 99)
 
         def pick_v():
             """a new vector, or (T(T(v))) an array returned by an earlier call of this history"""
-            cands = [e for e in exact_pool if e[1] <= 2 and e[2] is not None]
+            cands = [e for e in exact_pool if e[1] <= 2]
             if cands and rng.random() < 0.4:
                 v, dep, arr = rng.choice(cands)
                 ctx.count("history:v-is-earlier-result")
@@ -422,20 +450,91 @@ def run(ctx):
             # everything kept so far is still what it was
             for ent in ledger[:-1] if not legit_self else ledger:
                 if snap(ent["arrs"]) != ent["snaps"]:
-                    fail("history_result_overwritten", "the kept result of %s changed after the later call %s" % (ent["label"], label))
+                    fail("history_result_overwritten", "the kept result of %s changed after the later operation %s" % (ent["label"], label))
                     ent["snaps"] = snap(ent["arrs"])
             for lab, arr, sn in inputs:
                 if snap([arr]) != sn:
                     fail("history_input_mutated", "an input array (%s) was modified by %s" % (lab, label))
-            if snap(obj_arrs) != obj_snap or [id(a) for a in arrays_of(dh)] != [id(a) for a in obj_arrs]:
-                fail("history_object_mutated", "the object's stored R/Q/s_indices/a_indices/a_indptr changed during %s" % label)
+            if snap(obj_arrs) != objs["snap"] or [id(a) for a in arrays_of(dh)] != [id(a) for a in obj_arrs] \
+                    or float(dh.beta) != objs["beta"]:
+                fail("history_object_mutated", "the object's stored R/Q/s_indices/a_indices/a_indptr/beta changed during %s" % label)
+                objs["snap"] = snap(obj_arrs)
 
-        nsteps = ctx.n(7, 10)
+        def edited(label):
+            """a deliberate change of the object by the caller: new reference state"""
+            objs["snap"] = snap(obj_arrs)
+            objs["beta"] = float(dh.beta)
+            st["line"] = cur.as_inst().line()
+            st["tab"] = cur.table()
+            record(label, None, legit_self=True)
+
+        nsteps = ctx.n(9, 12)
         for step in range(nsteps):
-            op = rng.choice(["bellman", "bellman", "bellman", "greedy", "tsigma", "rqsigma", "cmc", "evalpol", "backward", "convert"])
-            if op in ("bellman", "greedy"):
+            op = rng.choice(["bellman", "bellman", "bellman", "greedy", "tsigma", "rqsigma", "cmc", "evalpol", "backward", "convert",
+                             "set_beta", "edit_R", "edit_Q"])
+            base = st["line"]
+            tab = st["tab"]
+            acts = [sorted(tab[s_]) for s_ in range(n)]
+            if op == "set_beta":
+                nb = rng.choice([b_ for b_ in (Fraction(0), Fraction(1, 4), Fraction(1, 2), Fraction(3, 4)) if b_ != cur.beta])
+                calls.append("ddp.beta=%s" % rat(nb))
+                dh.beta = rng.choice([float, np.float64, np.float32])(float(nb))
+                cur.beta = nb
+                hops.append(("B~" + rat(nb), None))
+                ctx.count("history:set_beta")
+                edited("set_beta#%d" % step)
+            elif op == "edit_R":
+                rr_ = rng.choice([1, 2, 8])
+                nr = Fraction(rng.randint(-rr_, rr_)) * inst.scale
+                if inst.form == "prod":
+                    s_ = rng.randrange(n)
+                    a_ = rng.choice(acts[s_])
+                    calls.append("ddp.R[%d,%d]=%s" % (s_, a_, rat(nr)))
+                    dh.R[s_, a_] = float(nr)
+                    cur.R[s_][a_] = nr
+                    hops.append(("R~%d~%s" % (s_ * inst.m + a_, rat(nr)), None))
+                else:
+                    fin = [j for j, p_ in enumerate(cur.pairs) if p_[2] is not NINF]
+                    j = rng.choice(fin)
+                    calls.append("ddp.R[%d]=%s" % (j, rat(nr)))
+                    dh.R[j] = float(nr)
+                    p_ = cur.pairs[j]
+                    cur.pairs[j] = (p_[0], p_[1], nr, p_[3])
+                    hops.append(("R~%d~%s" % (j, rat(nr)), None))
+                ctx.count("history:edit_R")
+                edited("edit_R#%d" % step)
+            elif op == "edit_Q":
+                if inst.form == "prod":
+                    s_ = rng.randrange(n)
+                    a_ = rng.choice(acts[s_])
+                    nq = dyadic_dist(rng, n)
+                    calls.append("ddp.Q[%d,%d,:]=%s" % (s_, a_, rats(nq)))
+                    dh.Q[s_, a_, :] = [float(x) for x in nq]
+                    cur.Q[s_][a_] = nq
+                    hops.append(("Q~%d~%s" % (s_ * inst.m + a_, rats(nq)), None))
+                else:
+                    j = rng.randrange(len(cur.pairs))
+                    p_ = cur.pairs[j]
+                    if inst.sparse:
+                        lo_, hi_ = int(dh.Q.indptr[j]), int(dh.Q.indptr[j + 1])
+                        cols = [int(c) for c in dh.Q.indices[lo_:hi_]]
+                        vals_ = [p_[3][c] for c in cols]
+                        rng.shuffle(vals_)
+                        nq = [Fraction(0)] * n
+                        for c, x in zip(cols, vals_):
+                            nq[c] = x
+                        dh.Q.data[lo_:hi_] = [float(x) for x in vals_]
+                    else:
+                        nq = dyadic_dist(rng, n)
+                        dh.Q[j, :] = [float(x) for x in nq]
+                    calls.append("ddp.Q[%d,:]=%s" % (j, rats(nq)))
+                    cur.pairs[j] = (p_[0], p_[1], p_[2], nq)
+                    hops.append(("Q~%d~%s" % (j, rats(nq)), None))
+                ctx.count("history:edit_Q")
+                edited("edit_Q#%d" % step)
+            elif op in ("bellman", "greedy"):
                 v, dep, vf = pick_v()
-                ev = exact_vals(inst, v)
+                ev = exact_vals(cur, v)
                 want_Tv = [vmax(ev[s].values()) for s in range(n)]
                 variant = rng.choice(["none", "none", "Tv", "Tv+sigma", "sigma"]) if op == "bellman" else rng.choice(["none", "sigma"])
                 calls.append("%s(v=%s,out=%s)" % (op, rats(v), variant))
@@ -456,12 +555,12 @@ def run(ctx):
                         fail("bellman_out", "bellman_operator did not return the supplied Tv array")
                     if [fe(x) for x in Tv] != want_Tv:
                         fail("bellman_operator", "Tv=%s but max_a r+beta*q.v = %s" % (exts(Tv), [str(x) for x in want_Tv]))
-                    ret = (Tv,) if sg is None else (Tv, sg)
                     tvline = "C09 bellmanTv %s v=%s" % (base, rats(v))
                     record("bellman#%d" % step, (Tv,), own=own, line=tvline, show=lambda a=Tv: "Tv=" + exts(a))
                     if sg is not None:
                         record("bellman-sigma#%d" % step, (sg,), own=own, line="C09 greedy %s v=%s" % (base, rats(v)),
                                show=lambda a=sg: "sigma=" + ints(a))
+                        hops.append(("T~" + rats(v), lambda a=Tv, b=sg: "Tv=%s|sigma=%s" % (exts(a), ints(b))))
                     if all(x is not NINF for x in want_Tv):
                         exact_pool.append((want_Tv, dep + 1, Tv))
                 else:
@@ -485,17 +584,18 @@ def run(ctx):
                 sigma = [rng.choice(a) for a in acts]
                 sig = np.array(sigma, dtype=int)
                 inputs.append(("sigma", sig, snap([sig])))
-                Rw = [table[s_][sigma[s_]][0] for s_ in range(n)]
-                Qw = [list(table[s_][sigma[s_]][1]) for s_ in range(n)]
+                Rw = [tab[s_][sigma[s_]][0] for s_ in range(n)]
+                Qw = [list(tab[s_][sigma[s_]][1]) for s_ in range(n)]
                 if op == "tsigma":
                     v, dep, vf = pick_v()
                     calls.append("T_sigma(%s)(v=%s)" % (ints(sigma), rats(v)))
                     out = dh.T_sigma(sig)(vf)
-                    want = [NINF if Rw[s_] is NINF else Rw[s_] + inst.beta * sum(x * y for x, y in zip(Qw[s_], v)) for s_ in range(n)]
+                    want = [NINF if Rw[s_] is NINF else Rw[s_] + cur.beta * sum(x * y for x, y in zip(Qw[s_], v)) for s_ in range(n)]
                     if [fe(x) for x in out] != want:
                         fail("T_sigma", "T_sigma(%s)(v) is not R_sigma + beta Q_sigma v" % sigma)
                     record("T_sigma#%d" % step, out, line="C09 tsigma %s sigma=%s v=%s" % (base, ints(sigma), rats(v)),
                            show=lambda a=out: exts(a))
+                    hops.append(("S~%s~%s" % (ints(sigma), rats(v)), lambda a=out: exts(a)))
                     if all(x is not NINF for x in want):
                         exact_pool.append((want, dep + 1, out))
                 elif op == "rqsigma":
@@ -513,11 +613,11 @@ def run(ctx):
                     record("controlled_mc#%d" % step, mc, line="C09 cmc %s sigma=%s" % (base, ints(sigma)),
                            show=lambda a=mc: "P=" + extm(dense(a.P)))
                 else:
-                    if inst.beta == 1 or any(r_ is NINF for r_ in Rw):
+                    if cur.beta == 1 or any(r_ is NINF for r_ in Rw):
                         continue
                     calls.append("evaluate_policy(%s)" % ints(sigma))
                     vs_ = dh.evaluate_policy(sig)
-                    A = [[(1 if i == j else 0) - inst.beta * Qw[i][j] for j in range(n)] for i in range(n)]
+                    A = [[(1 if i == j else 0) - cur.beta * Qw[i][j] for j in range(n)] for i in range(n)]
                     xs = solve_exact(A, Rw)
                     sc = max([1] + [abs(x) for x in xs])
                     if not np.all(np.isfinite(vs_)) or any(abs(Fraction(float(vs_[i])) - xs[i]) > Fraction(1, 10 ** 9) * sc for i in range(n)):
@@ -535,13 +635,13 @@ def run(ctx):
                     inputs.append(("v_term", vta, snap([vta])))
                 calls.append("backward_induction(T=%d,v_term=%s)" % (T, "None" if vt is None else rats(vt)))
                 vsb, sgb = backward_induction(dh, T, vta)
-                cur = vt if vt is not None else [Fraction(0)] * n
-                ok = [fe(x) for x in vsb[T]] == cur
+                curv = vt if vt is not None else [Fraction(0)] * n
+                ok = [fe(x) for x in vsb[T]] == curv
                 for t in range(T, 0, -1):
-                    ev = exact_vals(inst, cur)
-                    cur = [vmax(ev[s_].values()) for s_ in range(n)]
-                    ok = ok and [fe(x) for x in vsb[t - 1]] == cur and all(
-                        int(sgb[t - 1][s_]) in ev[s_] and ev[s_][int(sgb[t - 1][s_])] == cur[s_] for s_ in range(n))
+                    ev = exact_vals(cur, curv)
+                    curv = [vmax(ev[s_].values()) for s_ in range(n)]
+                    ok = ok and [fe(x) for x in vsb[t - 1]] == curv and all(
+                        int(sgb[t - 1][s_]) in ev[s_] and ev[s_][int(sgb[t - 1][s_])] == curv[s_] for s_ in range(n))
                 if not ok:
                     fail("backward_induction", "vs/sigmas are not the exact backward recursion (T=%d)" % T)
                 record("backward_induction#%d" % step, (vsb, sgb),
@@ -569,6 +669,436 @@ def run(ctx):
         for ent in ledger:
             if ent["line"] is not None:
                 cases.append(Case(ent["line"], ent["show"](), nontrivial=nt, tag="history"))
+        # … and the setters + bellman / T_sigma queries once more through the model's history semantics
+        while hops and hops[-1][1] is None:
+            hops.pop()
+        if any(h[1] is not None for h in hops):
+            cases.append(Case("C09 hist %s ops=%s" % (line0, "|".join(h[0] for h in hops)),
+                              "#".join("." if h[1] is None else h[1]() for h in hops), nontrivial=nt, tag="history-run"))
+
+    # ---------------------------------------------------------------- argument forms
+    INT_DTYPES = [np.int8, np.int16, np.int32, np.int64, np.uint8, np.uint16, np.uint32, np.uint64, np.intp]
+    # every (dtype, layout) combination of an array that reaches a Numba kernel costs one JIT compilation, so one run
+    # uses a small palette of integer widths (all widths are reached over the seeds); pure-NumPy arguments use them all
+    PALETTE = [np.int64] + rng.sample([np.int8, np.int16, np.int32, np.uint8, np.uint16, np.uint32, np.uint64], ctx.n(1, 3))
+    RPAL = rng.sample([np.float32, np.int64, np.int32, np.int8], ctx.n(1, 3))
+    ctx.extra["forms_int_palette"] = [np.dtype(d_).name for d_ in PALETTE]
+
+    def views(arr):
+        """the same values as a C array, an F array, a strided view, a reversed(-stride) view"""
+        k = rng.randrange(4)
+        if k == 0:
+            return np.ascontiguousarray(arr), "C"
+        if k == 1:
+            return np.asfortranarray(arr), "F"
+        if k == 2:
+            big = np.repeat(arr, 2, axis=0)
+            if arr.ndim >= 2:
+                big = np.repeat(big, 2, axis=arr.ndim - 1)
+                big[1::2] = 99
+                return big[(slice(None, None, 2),) + (slice(None),) * (arr.ndim - 2) + (slice(None, None, 2),)], "strided"
+            big[1::2] = 99
+            return big[::2], "strided"
+        rev = np.ascontiguousarray(arr[::-1])
+        return rev[::-1], "reversed"
+
+    def form_ints(vals, what, dt=None):
+        """an index / policy vector in a random legal form"""
+        vals = [int(x) for x in vals]
+        if dt is not None:
+            arr = np.array(vals, dtype=dt)
+            lay = "C"
+            if rng.random() < 0.15:
+                arr, lay = np.ascontiguousarray(arr[::-1])[::-1], "reversed"
+            ctx.count("forms:%s:%s" % (what, np.dtype(dt).name))
+            ctx.count("forms:%s:layout-%s" % (what, lay))
+            return arr
+        k = rng.randrange(4)
+        if k == 0:
+            ctx.count("forms:%s:list" % what)
+            return list(vals)
+        if k == 1:
+            ctx.count("forms:%s:tuple" % what)
+            return tuple(vals)
+        dt = rng.choice([d_ for d_ in PALETTE if not vals or max(vals) <= np.iinfo(d_).max])
+        arr, lay = views(np.array(vals, dtype=dt))
+        ctx.count("forms:%s:%s" % (what, np.dtype(dt).name))
+        ctx.count("forms:%s:layout-%s" % (what, lay))
+        return arr
+
+    def form_floats(exact, what, small):
+        """a real vector in a random legal form (float32 / integer dtypes only where they are exact)"""
+        fl = [float(x) for x in exact]
+        k = rng.randrange(5)
+        if k == 0:
+            ctx.count("forms:%s:list" % what)
+            return [int(x) if (x.denominator == 1 and abs(x) < 2 ** 53 and rng.random() < 0.5) else float(x) for x in exact]
+        if k == 1:
+            ctx.count("forms:%s:tuple" % what)
+            return tuple(fl)
+        dts = [np.float64, np.float64]
+        if small:
+            dts.append(np.float32)
+        if all(x.denominator == 1 for x in exact) and all(abs(x) < 2 ** 62 for x in exact):
+            dts.append(np.int64)
+            if all(abs(x) < 100 for x in exact):
+                dts += [np.int8, np.int32]
+                if all(x >= 0 for x in exact):
+                    dts.append(np.uint8)
+        dt = rng.choice(dts)
+        arr, lay = views(np.array([int(x) for x in exact] if np.dtype(dt).kind in "iu" else fl, dtype=dt))
+        ctx.count("forms:%s:%s" % (what, np.dtype(dt).name))
+        ctx.count("forms:%s:layout-%s" % (what, lay))
+        return arr
+
+    def form_scalar01(x, what):
+        """a scalar that may be an integer-like 0/1 or a dyadic fraction"""
+        f = float(x)
+        opts = [float, np.float64, np.float32, lambda y: np.array(y), lambda y: np.array(y, dtype=np.float32)]
+        if x.denominator == 1:
+            opts += [int, bool, np.int8, np.int64, np.uint8, np.bool_]
+        mk = rng.choice(opts)
+        val = mk(int(x)) if (x.denominator == 1 and mk in (int, bool, np.int8, np.int64, np.uint8, np.bool_)) else mk(f)
+        ctx.count("forms:%s:%s" % (what, type(val).__name__ + ("-0d" if isinstance(val, np.ndarray) else "")))
+        return val
+
+    def keep_input(store, label, x):
+        import copy
+        if isinstance(x, np.ndarray):
+            store.append((label, x, ("nd", snap([x]))))
+        elif hasattr(x, "indptr") or hasattr(x, "row") or hasattr(x, "rows"):
+            store.append((label, x, ("sp", (x.format, x.shape, x.toarray().tobytes(), snap(arrays_of(x))))))
+        else:
+            store.append((label, x, ("py", copy.deepcopy(x))))
+
+    def inputs_unchanged(store):
+        bad = []
+        for label, x, (kind, ref) in store:
+            if kind == "nd":
+                ok_ = snap([x]) == ref
+            elif kind == "sp":
+                ok_ = (x.format, x.shape, x.toarray().tobytes(), snap(arrays_of(x))) == ref
+            else:
+                ok_ = x == ref and type(x) is type(ref)
+            if not ok_:
+                bad.append(label)
+        return bad
+
+    def run_forms(inst, table, acts, base, nt):
+        """the same problem and the same calls, every argument in a random legal FORM (Python / NumPy
+        scalars, 0-d arrays, list / tuple / ndarray of every integer width, float32, C / F / strided /
+        reversed views, sparse csr / csc / coo / lil with int32 / int64 indices and stored zeros, optional
+        arguments omitted / None / positional / keyword). Judged by the exact oracle and by the model
+        (the request lines are those of the canonical form)."""
+        import scipy.sparse as sp
+        n = inst.n
+        kept = []
+        small_ok = inst.scale == 1
+        desc = []
+
+        def fail(key, what):
+            ctx.spec_fail(key, what + " [forms: " + " ; ".join(desc) + "]", inst.replay(forms=list(desc)))
+
+        # ---- constructor
+        f = lambda r: -math.inf if r is NINF else float(r)
+        beta = form_scalar01(inst.beta, "beta")
+        desc.append("beta=%r" % (beta,))
+        exotic = "free"      # product form: pure NumPy, every argument varies freely
+        if inst.form == "prod":
+            Rl = [[f(r) for r in row] for row in inst.R]
+            Ql = [[[float(x) for x in q] for q in qs] for qs in inst.Q]
+            k = rng.randrange(4)
+            if k == 0:
+                Rf, Qf = Rl, Ql
+                desc.append("R,Q nested lists")
+            elif k == 1:
+                Rf, Qf = tuple(tuple(r) for r in Rl), tuple(tuple(tuple(q) for q in qs) for qs in Ql)
+                desc.append("R,Q nested tuples")
+            else:
+                allfin = all(r is not NINF for row in inst.R for r in row)
+                rdt = rng.choice([np.float64, np.float32] if small_ok else [np.float64])
+                if small_ok and allfin and rng.random() < 0.4:
+                    rdt = rng.choice([np.int64, np.int32, np.int8])
+                Rf, lay1 = views(np.array(Rl, dtype=float).astype(rdt))
+                qdt = rng.choice([np.float64, np.float32])
+                Qf, lay2 = views(np.array(Ql, dtype=qdt))
+                desc.append("R %s %s, Q %s %s" % (np.dtype(rdt).name, lay1, np.dtype(qdt).name, lay2))
+                ctx.count("forms:R:%s" % np.dtype(rdt).name)
+                ctx.count("forms:Q:%s-%s" % (np.dtype(qdt).name, lay2))
+            keep_input(kept, "R", Rf)
+            keep_input(kept, "Q", Qf)
+            try:
+                df = DiscreteDP(Rf, Qf, beta) if rng.random() < 0.5 else DiscreteDP(R=Rf, Q=Qf, beta=beta)
+            except Exception as e:
+                fail("forms_ctor", "constructor rejected a legal argument form: %s" % err_str(e))
+                return
+        else:
+            L = len(inst.pairs)
+            Rl = [f(p_[2]) for p_ in inst.pairs]
+            Ql = [[float(x) for x in p_[3]] for p_ in inst.pairs]
+            # arrays of an SA instance reach the Numba kernels: ONE argument family per instance gets an unusual
+            # representation (dtype / layout), the others stay plain, so that the number of JIT specialisations per run
+            # grows with the sum, not the product, of the alternatives
+            exotic = rng.choice(["idx", "idx", "R", "Q", "sigma", "none"])
+            desc.append("exotic=" + exotic)
+            if exotic == "idx":
+                idt_ = rng.choice(PALETTE)
+                sidx = form_ints([p_[0] for p_ in inst.pairs], "s_indices", idt_)
+                aidx = form_ints([p_[1] for p_ in inst.pairs], "a_indices", idt_)
+            else:
+                mk_ = rng.choice([list, tuple, lambda x: np.array(x, dtype=np.int64)])
+                sidx, aidx = mk_([p_[0] for p_ in inst.pairs]), mk_([p_[1] for p_ in inst.pairs])
+                ctx.count("forms:s_indices:" + type(sidx).__name__)
+            allfin = all(p_[2] is not NINF for p_ in inst.pairs)
+            if exotic == "R" and small_ok:
+                rdt = rng.choice([d_ for d_ in RPAL if allfin or np.dtype(d_).kind == "f"] or [np.float64])
+                Rf = np.array(Rl, dtype=float).astype(rdt)
+                if rng.random() < 0.3:
+                    Rf = np.ascontiguousarray(Rf[::-1])[::-1]
+                ctx.count("forms:R:%s" % np.dtype(rdt).name)
+            else:
+                Rf = rng.choice([list, tuple, lambda x: np.array(x, dtype=float)])(Rl)
+                if inst.sparse and not isinstance(Rf, np.ndarray):
+                    Rf = np.array(Rl, dtype=float)
+            qdt = np.float32 if (exotic == "Q" and small_ok and rng.random() < 0.5) else np.float64
+            Qd = np.array(Ql, dtype=qdt).reshape(L, n)
+            if inst.sparse:
+                fmt = rng.choice(["csr", "csc", "coo", "lil"])
+                idt = rng.choice([np.int32, np.int64])
+                if rng.random() < 0.3:       # every entry stored, zeros included
+                    Qf = sp.csr_matrix((Qd.ravel().copy(), np.tile(np.arange(n), L), np.arange(0, L * n + 1, n)), shape=(L, n))
+                    zeros = "+stored-zeros"
+                else:
+                    Qf = sp.csr_matrix(Qd)
+                    zeros = ""
+                Qf = Qf.asformat(fmt)
+                if fmt in ("csr", "csc"):
+                    Qf.indices = Qf.indices.astype(idt)
+                    Qf.indptr = Qf.indptr.astype(idt)
+                elif fmt == "coo":
+                    Qf = sp.coo_matrix((Qf.data, (Qf.row.astype(idt), Qf.col.astype(idt))), shape=Qf.shape)
+                desc.append("Q %s %s %s%s" % (fmt, np.dtype(idt).name, np.dtype(qdt).name, zeros))
+                ctx.count("forms:Q:sparse-%s-%s%s" % (fmt, np.dtype(idt).name, zeros))
+            else:
+                k2 = rng.randrange(3) if exotic == "Q" else 0
+                if k2 == 0:
+                    Qf = rng.choice([lambda x: x, lambda x: tuple(tuple(q) for q in x), lambda x: np.array(x, dtype=qdt).reshape(L, n)])(Ql)
+                    desc.append("Q plain %s" % type(Qf).__name__)
+                    if L == 0:
+                        Qf = np.zeros((0, n))
+                else:
+                    Qf, lay = views(Qd)
+                    desc.append("Q %s %s" % (np.dtype(qdt).name, lay))
+                    ctx.count("forms:Q:%s-%s" % (np.dtype(qdt).name, lay))
+            desc.append("R %s, s %s, a %s" % (type(Rf).__name__ + (":" + Rf.dtype.name if isinstance(Rf, np.ndarray) else ""),
+                                              type(sidx).__name__ + (":" + sidx.dtype.name if isinstance(sidx, np.ndarray) else ""),
+                                              type(aidx).__name__ + (":" + aidx.dtype.name if isinstance(aidx, np.ndarray) else "")))
+            for lab, x in (("R", Rf), ("Q", Qf), ("s_indices", sidx), ("a_indices", aidx)):
+                keep_input(kept, lab, x)
+            try:
+                df = DiscreteDP(Rf, Qf, beta, sidx, aidx) if rng.random() < 0.5 else \
+                    DiscreteDP(Rf, Qf, beta, a_indices=aidx, s_indices=sidx)
+            except Exception as e:
+                fail("forms_ctor", "constructor rejected a legal argument form: %s" % err_str(e))
+                return
+        cases.append(Case("C09 ctor " + base, canon_ddp(df), nontrivial=nt, tag="forms"))
+        bad = inputs_unchanged(kept)
+        if bad:
+            fail("forms_input_mutated", "the constructor modified its argument(s) %s" % bad)
+        obj_arrs = arrays_of(df)
+        obj_snap = snap(obj_arrs)
+
+        def after(label):
+            bad_ = inputs_unchanged(kept)
+            if bad_:
+                fail("forms_input_mutated", "%s modified its argument(s) %s" % (label, bad_))
+            if snap(obj_arrs) != obj_snap:
+                fail("forms_object_mutated", "%s changed the object's stored arrays" % label)
+
+        returned = []
+
+        def guarded(label, fn, own=()):
+            try:
+                res_ = fn()
+            except Exception as e:
+                fail("forms_rejected", "%s raised %s on a legal argument form" % (label, err_str(e)))
+                return False, None
+            if hasattr(res_, "_sa_pair") and res_ is df:
+                return True, res_
+            for x in arrays_of(res_):
+                if any(x is o or (o.base is not None and x.base is o.base and x.shape == o.shape and x.strides == o.strides
+                                  and x.__array_interface__["data"] == o.__array_interface__["data"]) for o in own):
+                    continue
+                for lab_, inp, _ in kept:
+                    for y in arrays_of(inp):
+                        if shares(x, y):
+                            fail("forms_alias_input", "the result of %s shares memory with the argument %s" % (label, lab_))
+                for y in obj_arrs:
+                    if shares(x, y):
+                        fail("forms_alias_object", "the result of %s shares memory with an array stored in the object" % label)
+                for lab_, y in returned:
+                    if shares(x, y):
+                        fail("forms_alias_result", "the result of %s shares memory with the earlier result of %s" % (label, lab_))
+                returned.append((label, x))
+            return True, res_
+
+        # ---- bellman_operator / compute_greedy
+        for _ in range(2):
+            vex = gen_v(inst, "small") if small_ok else gen_v(inst)
+            if small_ok and rng.random() < 0.5:
+                vex = [x + Fraction(rng.randint(0, 3), 4) for x in vex]     # not integer-valued (dtype casts would show)
+            elif small_ok and rng.random() < 0.4:
+                vex = gen_v(inst, rng.choice(["large", "mixed", "neg"]))
+            smallv = small_ok and all(abs(x) <= 9 for x in vex) and (
+                not isinstance(getattr(df, "R", None), np.ndarray) or True)
+            vf = form_floats(vex, "v", smallv)
+            keep_input(kept, "v", vf)
+            desc.append("v %s" % (type(vf).__name__ + (":" + vf.dtype.name if isinstance(vf, np.ndarray) else "")))
+            ev = exact_vals(inst, vex)
+            want_Tv = [vmax(ev[s_].values()) for s_ in range(n)]
+            how = rng.choice(["omitted", "None-kw", "positional", "keyword", "strided-out", "greedy", "greedy-pos"])
+            if how == "strided-out" and exotic not in ("free", "none"):
+                how = "positional"
+            desc.append("bellman outputs %s" % how)
+            ctx.count("forms:bellman-out:" + how)
+            Tv = sg = None
+            if how == "omitted":
+                ok_, Tv = guarded("bellman_operator", lambda: df.bellman_operator(vf))
+            elif how == "None-kw":
+                ok_, Tv = guarded("bellman_operator", lambda: df.bellman_operator(v=vf, Tv=None, sigma=None))
+            elif how == "positional":
+                t0, s0 = np.full(n, 5.0), np.full(n, -3, dtype=int)
+                ok_, Tv = guarded("bellman_operator", lambda: df.bellman_operator(vf, t0, s0), own=(t0, s0))
+                sg = s0
+            elif how == "keyword":
+                t0, s0 = np.full(n, 5.0), np.full(n, -3, dtype=rng.choice([np.intp, np.int64]))
+                ok_, Tv = guarded("bellman_operator", lambda: df.bellman_operator(sigma=s0, Tv=t0, v=vf), own=(t0, s0))
+                sg = s0
+            elif how == "strided-out":
+                tb, sb = np.full(2 * n, 5.0), np.full(2 * n, -3, dtype=int)
+                tv_, sv_ = tb[::2], sb[::2]
+                ok_, Tv = guarded("bellman_operator", lambda: df.bellman_operator(vf, tv_, sv_), own=(tv_, sv_))
+                sg = sv_
+                if ok_ and (np.any(tb[1::2] != 5.0) or np.any(sb[1::2] != -3)):
+                    fail("forms_out_stride", "bellman_operator wrote outside the strided output views")
+            elif how == "greedy":
+                ok_, sg = guarded("compute_greedy", lambda: df.compute_greedy(vf))
+            else:
+                s0 = np.full(n, -3, dtype=int)
+                ok_, sg = guarded("compute_greedy", lambda: df.compute_greedy(vf, s0), own=(s0,))
+            if not ok_:
+                continue
+            if Tv is not None:
+                if [fe(x) for x in Tv] != want_Tv:
+                    fail("bellman_operator", "Tv=%s but max_a r+beta*q.v = %s" % (exts(Tv), [str(x) for x in want_Tv]))
+                cases.append(Case("C09 bellmanTv %s v=%s" % (base, rats(vex)), "Tv=" + exts(Tv), nontrivial=nt, tag="forms"))
+            if sg is not None:
+                if any(int(sg[s_]) not in ev[s_] or ev[s_][int(sg[s_])] != want_Tv[s_] for s_ in range(n)):
+                    fail("greedy_attains", "sigma=%s is not a feasible maximiser" % ints(sg))
+                cases.append(Case("C09 greedy %s v=%s" % (base, rats(vex)), "sigma=" + ints(sg), nontrivial=nt, tag="forms"))
+            after("bellman_operator/compute_greedy")
+
+        # ---- policies
+        sigma = [rng.choice(a) for a in acts]
+        if exotic in ("free", "sigma"):
+            sgf = form_ints(sigma, "sigma")
+        else:
+            sgf = rng.choice([list, tuple, lambda x: np.array(x, dtype=np.int64)])(sigma)
+            ctx.count("forms:sigma:" + type(sgf).__name__)
+        keep_input(kept, "sigma", sgf)
+        desc.append("sigma %s" % (type(sgf).__name__ + (":" + sgf.dtype.name if isinstance(sgf, np.ndarray) else "")))
+        Rw = [table[s_][sigma[s_]][0] for s_ in range(n)]
+        Qw = [list(table[s_][sigma[s_]][1]) for s_ in range(n)]
+        ok_, rq = guarded("RQ_sigma", lambda: df.RQ_sigma(sgf) if rng.random() < 0.5 else df.RQ_sigma(sigma=sgf))
+        if ok_:
+            if [fe(x) for x in rq[0]] != Rw or [[Fraction(float(x)) for x in r_] for r_ in dense(rq[1])] != Qw:
+                fail("RQ_sigma", "RQ_sigma(%s) does not select the rows of the chosen actions" % sigma)
+            cases.append(Case("C09 rqsigma %s sigma=%s" % (base, ints(sigma)), "R=%s|Q=%s" % (exts(rq[0]), extm(dense(rq[1]))),
+                              nontrivial=nt, tag="forms"))
+        ok_, mc = guarded("controlled_mc", lambda: df.controlled_mc(sgf))
+        if ok_ and [[Fraction(float(x)) for x in r_] for r_ in dense(mc.P)] != Qw:
+            fail("controlled_mc", "controlled_mc(%s).P is not Q_sigma" % sigma)
+        vex = gen_v(inst, "small") if small_ok else gen_v(inst)
+        if small_ok and rng.random() < 0.5:
+            vex = [x + Fraction(rng.randint(0, 3), 4) for x in vex]
+        vf = form_floats(vex, "v", small_ok)
+        keep_input(kept, "v", vf)
+        ok_, out = guarded("T_sigma", lambda: df.T_sigma(sgf)(vf))
+        if ok_:
+            want = [NINF if Rw[s_] is NINF else Rw[s_] + inst.beta * sum(x * y for x, y in zip(Qw[s_], vex)) for s_ in range(n)]
+            if [fe(x) for x in out] != want:
+                fail("T_sigma", "T_sigma(%s)(v) is not R_sigma + beta Q_sigma v" % sigma)
+            cases.append(Case("C09 tsigma %s sigma=%s v=%s" % (base, ints(sigma), rats(vex)), exts(out), nontrivial=nt, tag="forms"))
+        if inst.beta != 1 and all(r_ is not NINF for r_ in Rw):
+            ok_, vs_ = guarded("evaluate_policy", lambda: df.evaluate_policy(sgf))
+            if ok_:
+                A = [[(1 if i == j else 0) - inst.beta * Qw[i][j] for j in range(n)] for i in range(n)]
+                xs = solve_exact(A, Rw)
+                sc = max([1] + [abs(x) for x in xs])
+                if not np.all(np.isfinite(vs_)) or any(abs(Fraction(float(vs_[i])) - xs[i]) > Fraction(1, 10 ** 9) * sc for i in range(n)):
+                    fail("evaluate_policy", "evaluate_policy(%s) is off the exact fixed point" % sigma)
+        after("RQ_sigma/controlled_mc/T_sigma/evaluate_policy")
+
+        # ---- backward induction
+        if small_ok:
+            T = rng.randint(0, 3)
+            Tf = rng.choice([int, np.int8, np.int16, np.int32, np.int64, np.uint8, np.uint16, np.uint32, np.uint64, np.intp,
+                             lambda y: np.array(y)])(T)
+            how = rng.choice(["omitted", "None", "positional", "keyword"])
+            vt = None if how in ("omitted", "None") else [Fraction(rng.randint(-16, 16)) for _ in range(n)]
+            vtf = None if vt is None else form_floats(vt, "v_term", True)
+            if vtf is not None:
+                keep_input(kept, "v_term", vtf)
+            desc.append("backward T=%r v_term %s" % (Tf, how))
+            ctx.count("forms:T:%s" % (type(Tf).__name__ + ("-0d" if isinstance(Tf, np.ndarray) else "")))
+            ctx.count("forms:v_term:" + how)
+            if how == "omitted":
+                ok_, res = guarded("backward_induction", lambda: backward_induction(df, Tf))
+            elif how == "None":
+                ok_, res = guarded("backward_induction", lambda: backward_induction(df, Tf, None))
+            elif how == "positional":
+                ok_, res = guarded("backward_induction", lambda: backward_induction(df, Tf, vtf))
+            else:
+                ok_, res = guarded("backward_induction", lambda: backward_induction(v_term=vtf, T=Tf, ddp=df))
+            if ok_:
+                vsb, sgb = res
+                curv = vt if vt is not None else [Fraction(0)] * n
+                good = vsb.shape == (T + 1, n) and sgb.shape == (T, n) and [fe(x) for x in vsb[T]] == curv
+                for t in range(T, 0, -1):
+                    if not good:
+                        break
+                    ev = exact_vals(inst, curv)
+                    curv = [vmax(ev[s_].values()) for s_ in range(n)]
+                    good = [fe(x) for x in vsb[t - 1]] == curv and all(
+                        int(sgb[t - 1][s_]) in ev[s_] and ev[s_][int(sgb[t - 1][s_])] == curv[s_] for s_ in range(n))
+                if not good:
+                    fail("backward_induction", "vs/sigmas are not the exact backward recursion (T=%d)" % T)
+                cases.append(Case("C09 backward %s T=%d vterm=%s" % (base, T, "none" if vt is None else rats(vt)),
+                                  "vs=%s|sigmas=%s" % (extm(vsb), intm(sgb)), nontrivial=nt and T >= 1, tag="forms"))
+            after("backward_induction")
+
+        # ---- form conversion
+        if inst.form == "prod":
+            flag = rng.choice(["omitted", True, False, 1, 0, np.bool_(True), np.bool_(False)])
+            desc.append("to_sa_pair_form(%r)" % (flag,))
+            ok_, e = guarded("to_sa_pair_form", lambda: df.to_sa_pair_form() if isinstance(flag, str) else (
+                df.to_sa_pair_form(flag) if rng.random() < 0.5 else df.to_sa_pair_form(sparse=flag)))
+            if ok_:
+                wants_sparse = True if isinstance(flag, str) else bool(flag)
+                if sp.issparse(e.Q) != wants_sparse:
+                    fail("forms_sparse_flag", "to_sa_pair_form(sparse=%r) returned a %s Q" % (flag, type(e.Q).__name__))
+                got = {(int(s_), int(a_)): (fe(r), [Fraction(float(x)) for x in q])
+                       for s_, a_, r, q in zip(e.s_indices, e.a_indices, e.R, dense(e.Q))}
+                want = {(s_, a_): (rq_[0], list(rq_[1])) for s_ in table for a_, rq_ in table[s_].items()}
+                if got != want:
+                    fail("to_sa_pair_form", "pairs / rewards / rows differ from the feasible pairs of the product form")
+                cases.append(Case("C09 tosa " + base, canon_ddp(e), nontrivial=True, tag="forms"))
+        else:
+            ok_, e = guarded("to_product_form", lambda: df.to_product_form())
+            if ok_:
+                cases.append(Case("C09 toprod " + base, canon_ddp(e), nontrivial=True, tag="forms"))
+        after("form conversion")
+        ctx.count("forms:runs")
 
     # ---------------------------------------------------------------- valid instances
     n_inst = ctx.n(200, 5000)
@@ -872,6 +1402,9 @@ def run(ctx):
 
         # ---- histories: many calls on ONE object, every earlier result kept and re-checked
         run_history(inst, table, acts, base, nt)
+
+        # ---- argument forms: the same problem, every argument in a random legal representation
+        run_forms(inst, table, acts, base, nt)
 
     # ---------------------------------------------------------------- malformed stream
     mal = []   # (inst, description, must_reject)
